@@ -80,6 +80,7 @@ type callRec struct {
 type rcptObs struct {
 	Inv     string // invocation link
 	Found   bool
+	FxBad   string // non-empty: the receipt's effects are not the ones the handler returned
 	Class   string // "ok" | error name | "?" when undecodable
 	Ran     string
 	Issuer  string
@@ -149,6 +150,10 @@ func sharedProvider(can, kind string) server.ServiceMethod[ipld.Builder] {
 			return unencodable{}, nil, nil
 		case "okfx":
 			return ok.Unit{}, fx.NewEffects(fx.WithFork(fx.FromLink(fakeLink(777)))), nil
+		case "okjoin":
+			return ok.Unit{}, fx.NewEffects(fx.WithJoin(fx.FromLink(fakeLink(778)))), nil
+		case "okfxjoin":
+			return ok.Unit{}, fx.NewEffects(fx.WithFork(fx.FromLink(fakeLink(777)), fx.FromLink(fakeLink(779))), fx.WithJoin(fx.FromLink(fakeLink(778)))), nil
 		}
 		return ok.Unit{}, nil, nil
 	}
@@ -162,9 +167,9 @@ func (b *Batch) newServer(obs *BatchObs) (server.ServerView, error) {
 	w := b.W
 	dummy := &Obs{}
 	var opts []server.Option
-	if c := w.Ctx; b.ID%5 == 2 && c.SelfIssued && len(c.Owners) == 0 && len(c.Revoked) == 0 && len(c.Resolvable) == 0 &&
+	if c := w.Ctx; (b.ID%5 == 2 || b.ID%5 == 4) && c.SelfIssued && len(c.Owners) == 0 && len(c.Revoked) == 0 && len(c.Resolvable) == 0 &&
 		len(c.KeyResolver) == 0 && c.ParserKind == "ed" {
-		b.DefaultOpts = true // the context is exactly the library's defaults: every fifth such batch runs on a server built without options
+		b.DefaultOpts = true // the context is exactly the library's defaults: two in five such batches run on a server built without options
 	}
 	if b.DefaultOpts {
 		// the server as most services build it: NewServer(id, handlers...) and nothing else — every validation option
@@ -211,6 +216,39 @@ func (b *Batch) newServer(obs *BatchObs) (server.ServerView, error) {
 }
 
 // decodeReceipt reads class / ran / issuer out of a receipt root block, independently of the receipt reader.
+// receiptEffects: fork links and join link written in a receipt's outcome
+func receiptEffects(b []byte) (forks []string, join string) {
+	n, err := ipldprime.Decode(b, dagcbor.Decode)
+	if err != nil {
+		return nil, ""
+	}
+	ocm, err := n.LookupByString("ocm")
+	if err != nil {
+		return nil, ""
+	}
+	f, err := ocm.LookupByString("fx")
+	if err != nil {
+		return nil, ""
+	}
+	if fk, err := f.LookupByString("fork"); err == nil && fk.Kind() == datamodel.Kind_List {
+		for it := fk.ListIterator(); !it.Done(); {
+			_, v, err := it.Next()
+			if err != nil {
+				break
+			}
+			if l, err := v.AsLink(); err == nil {
+				forks = append(forks, l.String())
+			}
+		}
+	}
+	if j, err := f.LookupByString("join"); err == nil {
+		if l, err := j.AsLink(); err == nil {
+			join = l.String()
+		}
+	}
+	return forks, join
+}
+
 func decodeReceipt(b []byte) (class, ran, iss string, okk bool) {
 	n, err := ipldprime.Decode(b, dagcbor.Decode)
 	if err != nil {
@@ -448,6 +486,26 @@ func (b *Batch) runOn(ch transport.Channel, names []string, obs *BatchObs) {
 			ro.Rcpt = rl.String()
 			if bb, ok := blocks[rl.String()]; ok {
 				ro.Class, ro.Ran, ro.Issuer, ro.Decoded = decodeReceipt(bb)
+				if ro.Class == "ok" {
+					// the effects the handler returned are the effects of the receipt (forks in order, the join)
+					if caps := b.W.built[n].Dlg.Capabilities(); len(caps) == 1 {
+						kind := strings.TrimSuffix(b.Handlers[caps[0].Can()], "+didwith")
+						var wantForks []string
+						wantJoin := ""
+						switch kind {
+						case "okfx":
+							wantForks = []string{fakeLink(777).String()}
+						case "okjoin":
+							wantJoin = fakeLink(778).String()
+						case "okfxjoin":
+							wantForks, wantJoin = []string{fakeLink(777).String(), fakeLink(779).String()}, fakeLink(778).String()
+						}
+						forks, join := receiptEffects(bb)
+						if strings.Join(forks, ",") != strings.Join(wantForks, ",") || join != wantJoin {
+							ro.FxBad = fmt.Sprintf("handler kind %s: receipt carries forks %v join %q, the handler returned forks %v join %q", kind, forks, join, wantForks, wantJoin)
+						}
+					}
+				}
 			} else {
 				ro.Class = "missing-block"
 			}
@@ -588,7 +646,7 @@ func randomBatch(r *rand.Rand, id int, seed int64, maxInv int, dup bool) *Batch 
 		case 1:
 			b.Handlers[a] = "fail"
 		case 2:
-			b.Handlers[a] = "okfx"
+			b.Handlers[a] = []string{"okfx", "okjoin", "okfxjoin"}[(id+len(a))%3]
 		default:
 			b.Handlers[a] = "ok"
 		}
@@ -625,6 +683,17 @@ func randomBatch(r *rand.Rand, id int, seed int64, maxInv int, dup bool) *Batch 
 			inv.Tamper = "nocaps"
 		}
 		b.Invs = append(b.Invs, inv.Name)
+	}
+	if r.Intn(3) == 0 {
+		// an invocation issued by a principal WITHOUT a key (a did:mailto account signing with the blank signature) that
+		// brings no session: refused like any other unauthorized invocation, with a receipt, next to the others
+		ab := cast.Absentee(fmt.Sprintf("acct%d", id), fmt.Sprintf("did:mailto:example.com:user%d", id))
+		far := int(ucan.Now()) + 1000000
+		sp := &TokSpec{Name: "absentee_inv", Issuer: ab, Audience: service, Exp: &far,
+			Caps: []CapSpec{{Can: "store/add", With: ab.DID.String(), Nb: Cav{}}}}
+		cw.Specs = append(cw.Specs, sp)
+		at := r.Intn(len(b.Invs) + 1)
+		b.Invs = append(b.Invs[:at], append([]string{"absentee_inv"}, b.Invs[at:]...)...)
 	}
 	if rsa {
 		cw.Ctx.ParserKind = "ed+rsa"
